@@ -112,6 +112,7 @@ func cmdRun(args []string) int {
 	solvers := fs.String("solvers", "z3,cvc5,cvc5int,z3new", "solver order")
 	dump := fs.String("dump", "", "dump queries to dir")
 	trace := fs.Bool("trace", false, "record scheduler events")
+	dbg := fs.Bool("debugpicks", false, "log pick sites")
 	fs.Parse(args)
 	e, err := setup(*tier)
 	if err != nil {
@@ -120,6 +121,7 @@ func cmdRun(args []string) int {
 	}
 	e.dumpQueries = *dump
 	e.traceEvents = *trace
+	e.debugPicks = *dbg
 	sum := e.explore(*harness, ExploreCfg{Workers: *workers, MaxPaths: *maxPaths, Budget: *budget, Timeout: *qt, Solvers: parseSolvers(*solvers)})
 	printSummary(sum)
 	for _, v := range sum.Violations {
@@ -138,6 +140,7 @@ func cmdRun(args []string) int {
 func printSummary(sum *Summary) {
 	fmt.Printf("harness %s: paths=%d outcomes=%v obligations=%d discharged=%d trivial=%d unknown=%d symbranches=%d steps=%d trans=%d maxG=%d wall=%.1fs\n",
 		sum.Harness, sum.Paths, sum.Outcomes, sum.Obligations, sum.Discharged, sum.Trivial, sum.UnknownObl, sum.SymBranches, sum.Steps, sum.Transitions, sum.MaxGoroutines, sum.WallS)
+	fmt.Printf("  picks=%d concretized=%d\n", sum.Picks, sum.Concretized)
 	fmt.Printf("  solver: queries=%d sat=%d unsat=%d unknown=%d errors=%d time=%.1fs backends=%v cross=%d/%d\n",
 		sum.Solver.Queries, sum.Solver.Sat, sum.Solver.Unsat, sum.Solver.Unknown, sum.Solver.Errors, float64(sum.Solver.TimeNs)/1e9, sum.Solver.ByBackend, sum.Solver.CrossDis, sum.Solver.CrossChk)
 	var cov []string
